@@ -563,6 +563,9 @@ func runImportClosure(in, out string, _ []string) error {
 		if err := json.Unmarshal(line, &sc); err != nil {
 			return fmt.Errorf("bad scenario: %v: %s", err, line)
 		}
+		// a panic on one of the collector's or the converter's goroutines ends the process: say which scenario is running
+		w.Emit(tr.Ev{"t": sc.ID, "e": "start"})
+		w.Flush()
 		w.EmitAll(runOneImportClosure(sc))
 		return nil
 	})
